@@ -124,3 +124,11 @@ Proof. vm_compute. repeat split; auto; discriminate. Qed.
 Example C21_ex_escape :
   append_string [x22; x0a; x01; "a"]%byte = ([x22; x5c; x22; x5c; "n"; x5c; "u"; "0"; "0"; "0"; "1"; "a"; x22]%byte, true).
 Proof. vm_compute. reflexivity. Qed.
+Example C21_ex_number_complete :
+  rfc_number ["-"; "1"; "."; "5"; "e"; "+"; "3"]%byte /\
+  parse_number ["-"; "1"; "."; "5"; "e"; "+"; "3"; "]"]%byte = Some 7%nat /\
+  parse_number ["-"; "1"; "."; "5"; "e"; "+"; "3"; "x"]%byte = None.
+Proof. split; [apply is_rfc_number_iff; vm_compute; reflexivity|vm_compute; split; reflexivity]. Qed.
+Example C21_ex_is_json :
+  is_json C21_doc = true /\ is_json ["["; "1"; ","; "]"]%byte = false /\ is_json [] = false.
+Proof. vm_compute. repeat split. Qed.
